@@ -338,8 +338,15 @@ pub fn run_term(trace: &Trace) -> Outcome {
     'events: for (ei, ev) in trace.events.iter().enumerate() {
         stats.events += 1;
         match ev {
-            Ev::Rx { hex } => {
-                let bytes = from_hex(hex);
+            Ev::Rx { .. } | Ev::Loopback => {
+                let bytes = match ev {
+                    Ev::Rx { hex } => from_hex(hex),
+                    _ => {
+                        let r = std::mem::take(&mut s.replies);
+                        stats.add("loopback_bytes", r.len() as u64);
+                        r
+                    }
+                };
                 for b in bytes {
                     guard::phase(1);
                     hooks::set_fuel(fuel, DEFAULT_MAX_DEPTH);
